@@ -148,13 +148,10 @@ def run(args):
                                 stale[lhs["decl"]] = lhs
                 n_fresh = 0
                 for d_, node in stale.items():
-                    rewritten = [w.get("ln") or 0 for w in writes_to(outer[0].get("body"), {d_})]
+                    if writes_to(outer[0].get("body"), {d_}):
+                        continue         # updated inside the loop (previous-iterate bookkeeping and the like): not a hoisted value
                     for x in A.walk(outer[0].get("body")):
                         if x.get("k") == "DeclRefExpr" and x.get("decl") == d_:
-                            if any(x is (A.strip(w["ch"][0]) if w.get("k") != "CXXOperatorCallExpr" else A.strip(w["ch"][1])) for w in writes_to(outer[0].get("body"), {d_}) if w.get("ch")):
-                                continue     # the write itself
-                            if rewritten and min(rewritten) <= (x.get("ln") or 0):
-                                continue     # recomputed earlier in the same pass
                             n_fresh += 1
                             rep.fail(C.Finding("C16", "R-ITER.fresh", "%s:%s" % (site, node.get("name")),
                                                "`%s` is computed from the iterate before the loop and read at line %s inside it although the iterate changes in every pass: the update is not a function of the current iterate (stale linearisation point)" % (node.get("name"), x.get("ln")),
@@ -176,7 +173,7 @@ def run(args):
         "R-MPT.empty: a check raising on an empty container precedes every use of the container",
         "R-MPT.singleton: a one-element container is returned (its element) before any iteration",
         "R-LOOP: exactly one outer loop `for (i = 0; i < max_iterations; ++i)`; every loop is a counted loop whose counter and bound are not modified in its body; inner loops advance an iterator to end(); no while/do loops => at most max_iterations*|points| group operations",
-        "R-ITER.fresh: no value derived from the iterate before the max_iterations loop is read inside it without being recomputed in the same pass (the update is a function of the current iterate only)",
+        "R-ITER.fresh: no value derived from the iterate before the max_iterations loop and never updated inside it is read inside it (a hoisted linearisation point goes stale when the iterate changes)",
         "R-CONSTRUCT: elements are produced only through group operations (+=, lplus, rplus, +), never from raw coefficients",
     ]
     rep.observations.append("average() ignores its eps parameter and uses Constants<Scalar>::eps (clang-tidy misc-unused-parameters cross-reference); not a clause of the property")
